@@ -26,10 +26,116 @@ def load_check(cid: str):
     return importlib.import_module(f"checks.{cid.lower()}")
 
 
+# ------------------------------------------------------------------ python -O child
+# A plan marked {"interpreter": "-O"} is executed in a long-lived child interpreter started with -O (assert
+# statements removed, __debug__ false): same plan, same PRNG state / tape, the child's tape, counters and
+# event-log digest are folded back into the parent's Sim so that the run stays one replayable execution.
+_OPT = {"pid": None, "proc": None}
+
+
+def _opt_child():
+    import atexit
+    import subprocess
+    if _OPT["pid"] != os.getpid() or _OPT["proc"] is None or _OPT["proc"].poll() is not None:
+        env = dict(os.environ, PYTHONHASHSEED="0", PYTHONDONTWRITEBYTECODE="1")
+        env.pop("PYTHONOPTIMIZE", None)
+        proc = subprocess.Popen([sys.executable, "-O", "-B", os.path.join(VERIF, "simkit_main.py"), "--opt-child"],
+                                stdin=subprocess.PIPE, stdout=subprocess.PIPE, text=True, env=env, cwd=VERIF)
+        _OPT["pid"], _OPT["proc"] = os.getpid(), proc
+        atexit.register(_opt_stop)
+    return _OPT["proc"]
+
+
+def _opt_stop():
+    if _OPT["pid"] == os.getpid() and _OPT["proc"] is not None:
+        try:
+            _OPT["proc"].stdin.close()
+            _OPT["proc"].wait(timeout=5)
+        except Exception:  # noqa: BLE001
+            _OPT["proc"].kill()
+        _OPT["proc"] = None
+
+
+def run_in_opt_child(mod, plan: dict, sim: Sim) -> dict:
+    inner = {k: v for k, v in plan.items() if k not in ("interpreter", "tape")}
+    msg = {"cid": mod.ID, "plan": inner, "cap": sim.cap}
+    if sim.replay:
+        msg["tape"] = sim.tape
+    else:
+        st = sim.rng.getstate()
+        msg["rng_state"] = [st[0], list(st[1]), st[2]]
+    proc = _opt_child()
+    try:
+        proc.stdin.write(json.dumps(msg) + "\n")
+        proc.stdin.flush()
+        line = proc.stdout.readline()
+    except (BrokenPipeError, OSError) as e:
+        raise HarnessError(f"-O child went away: {e}") from None
+    if not line:
+        raise HarnessError(f"-O child died (exit {proc.poll()})")
+    resp = json.loads(line)
+    if resp.get("optimize", 0) < 1:
+        raise HarnessError("child interpreter does not run with -O")
+    if sim.replay:
+        sim.pos = resp["pos"]
+    else:
+        sim.tape = list(resp["tape"])
+    for k, v in resp["counters"].items():
+        sim.count(k, v)
+    for k, v in resp["faults"].items():
+        sim.fault(k, v)
+    sim.count("python_O_runs")
+    sim.seq += resp["seq"]
+    sim._h.update(resp["digest"].encode())
+    for v in resp["violations"]:
+        v.setdefault("sig", {})
+        v["sig"] = dict(v["sig"] or {}, interpreter="python -O")
+    key = frozenset(("-O", k) for k in resp["keys"]) if resp["keys"] else None
+    return {"violations": resp["violations"], "key": key, "harness": resp["harness"]}
+
+
+def cmd_opt_child() -> int:
+    """Serve plans on stdin (one JSON object per line) until EOF; answers go to the original stdout."""
+    import random
+    out = os.fdopen(os.dup(1), "w")
+    os.dup2(2, 1)               # anything the code under test prints goes to stderr
+    sys.stdout = sys.stderr
+    from . import repo
+    repo.setup()
+    for line in sys.stdin:
+        msg = json.loads(line)
+        mod = load_check(msg["cid"])
+        if "tape" in msg:
+            sim = Sim(tape=msg["tape"], cap=msg["cap"])
+        else:
+            rng = random.Random(0)
+            st = msg["rng_state"]
+            rng.setstate((st[0], tuple(st[1]), st[2]))
+            sim = Sim(rng=rng, cap=msg["cap"])
+        res = run_plan(mod, msg["plan"], sim)
+        keys = []
+        if res["key"] is not None:
+            ks = res["key"] if isinstance(res["key"], (set, frozenset)) else (res["key"],)
+            keys = sorted(hashlib.blake2b(repr(k1).encode("utf-8", "backslashreplace"), digest_size=8).hexdigest()
+                          for k1 in ks)
+        out.write(json.dumps({"optimize": sys.flags.optimize, "violations": res["violations"], "keys": keys,
+                              "harness": res["harness"], "tape": sim.tape if not sim.replay else [],
+                              "pos": sim.pos, "counters": sim.counters, "faults": sim.faults, "seq": sim.seq,
+                              "digest": sim.digest()}, default=repr) + "\n")
+        out.flush()
+    return 0
+
+
 # ------------------------------------------------------------------ single run
 def run_plan(mod, plan: dict, sim: Sim) -> dict:
     """Execute one plan under ``sim``; returns {'violations','key','harness'}"""
     out = {"violations": [], "key": None, "harness": None}
+    if plan.get("interpreter") == "-O":
+        try:
+            return run_in_opt_child(mod, plan, sim)
+        except HarnessError as e:
+            out["harness"] = f"HarnessError: {e}"
+            return out
     try:
         res = mod.execute(plan, sim)
         if isinstance(res, tuple):
@@ -58,6 +164,9 @@ def sig_key(sig: dict) -> str:
 def do_run(mod, seed: int, run: int, tier: str) -> tuple[dict, dict, Sim]:
     rng = make_rng(seed, mod.ID, run)
     plan = mod.generate(rng, run, tier)
+    every = getattr(mod, "OPTIMIZED_EVERY", 0)
+    if every and run % every == every - 1 and not os.environ.get("VERIF_NO_OPT_CHILD"):
+        plan["interpreter"] = "-O"
     plan.setdefault("check", mod.ID)
     plan["seed"] = seed
     plan["run"] = run
@@ -375,7 +484,10 @@ def cmd_check(cid: str, tier: str) -> int:
 
     wall = time.time() - t0
     probes = dict(sorted(tot["counters"].items()))
-    zero_probes = [p for p in getattr(mod, "PROBES", []) if not probes.get(p)]
+    probe_names = list(getattr(mod, "PROBES", []))
+    if getattr(mod, "OPTIMIZED_EVERY", 0):
+        probe_names.append("python_O_runs")
+    zero_probes = [p for p in probe_names if not probes.get(p)]
     ev = {
         "property_id": cid, "tier": tier, "seed": seed, "level": mod.LEVEL,
         "wall_s": round(wall, 3), "violations": len(new_violations),
@@ -453,7 +565,10 @@ def main(argv: list[str]) -> int:
                     choices=["quick", "thorough"])
     ap.add_argument("--replay")
     ap.add_argument("--selftest")
+    ap.add_argument("--opt-child", action="store_true")
     a = ap.parse_args(argv)
+    if a.opt_child:
+        return cmd_opt_child()
     if a.replay:
         return cmd_replay(a.replay)
     if a.selftest:
